@@ -54,9 +54,12 @@ def gen_history(rng, tier):
         else:
             ops.append(("set", BX.gen_key(rng, fixed), b""))
             m.pop(ops[-1][1], None)
-        probe_keys = BX.related(m.keys())
-        if len(probe_keys) > 10:
-            probe_keys = rng.sample(probe_keys, 10)
+        # every stored key is read back after every operation (a node shared with another key may have been lost), plus a
+        # sample of the related absent keys
+        probe_keys = [k for k in BX.related(m.keys()) if k not in m]
+        if len(probe_keys) > 6:
+            probe_keys = rng.sample(probe_keys, 6)
+        probe_keys = sorted(m)[:12] + probe_keys
         for k in probe_keys:
             ops.append((rng.choice(["get", "get", "exists"]), k))
         ops.append(("state",))
@@ -86,6 +89,37 @@ def spine_history(rng, side=None, plen=None):
     ops.append(("state",))
     victim = p + bytes([xs[0]])
     ops += [("delete", victim), ("get", victim), ("get", p), ("exists", p), ("state",)]
+    return ops
+
+
+def twin_history(rng, fixed_case=None):
+    """byte-identical nodes at two places: two keys with the same value whose bit paths end in the same tail (x and x ^ 0x80,
+    or a shared last byte), plus neighbours whose deletion collapses a branch next to one of them. The database is keyed by
+    content, so a node that is transient at one place can be a live node at the other."""
+    if fixed_case:
+        ks = [b"\x00", b"\x1a", b"\x9a", b"\xa0"]
+        vals = [b"gone", b"same", b"same", b"other"]
+    else:
+        pre = bytes(rng.choice(BX.ALPHA) for _ in range(rng.choice([0, 0, 1])))
+        tail = rng.randrange(1, 0x80)
+        ks = [pre + bytes([tail]), pre + bytes([tail | 0x80]), pre + bytes([rng.randrange(0x20)]), pre + bytes([0x80 | rng.randrange(0x20, 0x7F)])]
+        same = BX.gen_value(rng)
+        vals = [same, same, BX.gen_value(rng), BX.gen_value(rng)]
+    order = list(range(4))
+    if not fixed_case:
+        rng.shuffle(order)
+    ops = []
+    for i in order:
+        ops.append(("set", ks[i], vals[i]))
+    ops.append(("state",))
+    dels = [ks[0], ks[3], ks[2], ks[1]] if fixed_case else rng.sample(ks, 4)
+    live = dict(zip(ks, vals))
+    for d in dels:
+        ops.append(("delete", d))
+        live.pop(d, None)
+        for k in sorted(live):
+            ops.append(("get", k))
+        ops.append(("state",))
     return ops
 
 
@@ -156,12 +190,15 @@ def old_roots_readable(t, history):
     from trie.binary import BinaryTrie
     for root, m in history:
         snap = BinaryTrie(t.db, root)
-        for k, v in m.items():
-            if snap.get(k) != v:
-                return "an earlier root no longer reads its contents"
-        for k in BX.related(m.keys()):
-            if k not in m and snap.get(k) is not None:
-                return "an earlier root reads a key it never held"
+        try:
+            for k, v in m.items():
+                if snap.get(k) != v:
+                    return "an earlier root no longer reads its contents"
+            for k in BX.related(m.keys()):
+                if k not in m and snap.get(k) is not None:
+                    return "an earlier root reads a key it never held"
+        except Exception as e:
+            return f"an earlier root is no longer readable from the same database: {type(e).__name__}"
     return None
 
 
@@ -234,6 +271,7 @@ def check(tier, seed):
     n = 150 if tier == "quick" else 2500
     cases = corpus() + [spine_history(random.Random(7), "ones", 1), spine_history(random.Random(8), "zeros", 1)]
     cases += [spine_history(rng) for _ in range(2 if tier == "quick" else 30)]
+    cases += [twin_history(rng, True)] + [twin_history(rng) for _ in range(4 if tier == "quick" else 60)]
     cases += [gen_history(rng, tier) for _ in range(n)]
     terms, spec_terms, where, term_ops = [], [], [], []
     for ci, ops in enumerate(cases):
